@@ -86,6 +86,8 @@ def target_case(draw):
         if draw(st.integers(0, 6)) == 0:
             val = "none"
         unit = None
+        if dim is None and kind == "float" and val != "none" and draw(st.integers(0, 5)) == 0:
+            unit = "%"           # a dimensionless unit assigned to a node without unit: converted into a plain number
         if dim and val != "none":
             choice = draw(st.sampled_from(["absent", "same", "other", "other", "custom" if use_custom else "other"]))
             if choice == "same":
@@ -109,10 +111,10 @@ def target_case(draw):
                      # ... or by an expression ("A u - K u") u whose result is the value (zero included); K or None
                      "by_expr": draw(st.sampled_from(["1", "2.5", "100"] if kind == "float" else ["1", "7", "100"]))
                      if kind in ("float", "int", "bool") and val != "none" and draw(st.integers(0, 3)) == 0 else None})
-        if mods[-1]["by_expr"] and (mods[-1]["via_ref"] or (kind == "int" and abs(int(mods[-1]["val"])) > 2 ** 52)):
+        if mods[-1]["by_expr"] and (mods[-1]["via_ref"] or unit == "%" or (kind == "int" and abs(int(mods[-1]["val"])) > 2 ** 52)):
             mods[-1]["by_expr"] = None
     fail = draw(st.sampled_from([None] * 6 + ["type", "literal", "dimension", "constant", "undeclared"]))
-    if fail == "dimension" and not dim:
+    if fail == "dimension" and not dim and kind not in ("float", "int"):
         fail = "type"
     if fail == "constant" and draw(st.booleans()):
         # a constant that was only declared: its single later assignment is refused like any other
@@ -200,6 +202,10 @@ def render_stages(case):
                 unit = None
                 if val is None:
                     continue
+            elif case["fail"] == "dimension" and case["dim"] is None:
+                unit = "cm"         # a node defined without unit is dimensionless: a length cannot be assigned to it
+                if val == "none":
+                    val = "3"
             elif case["fail"] == "dimension":
                 other = [dd for dd in sorted(DIMS) if dd != case["dim"]][0]
                 unit = DIMS[other][0][0]
@@ -274,6 +280,8 @@ def model(case):
     cur = None if case["declared"] else _py(kind, case["first"])
     for m in case["mods"]:
         v = _expr(kind, m)[1] if m.get("by_expr") else _py(kind, m["val"])
+        if v is not None and m["unit"] == "%" and not case["unit"]:
+            v = v * 0.01
         if v is not None and m["unit"] and case["unit"]:
             f = _unit_factor(case, m["unit"]) / _unit_factor(case, case["unit"])
             v = [x * f for x in v] if isinstance(v, list) else v * f
